@@ -747,11 +747,23 @@ V("C11", "C11.R1", "c11-fortran-twin-uses-c-names", "shroud/ast.py",
   '''                    fvalue = todict.print_node_identifier(
                         member.value, fmtmembers, "C_enum_member")''', "fire", "")
 V("C11", "C11.R1", "c11-fvalue-not-reset", "shroud/ast.py",
-  '''                    cvalue = int(todict.print_node(member.value))
+  '''                        cvalue = int(literal)
                     fvalue = cvalue
                     value_is_int = True''',
-  '''                    cvalue = int(todict.print_node(member.value))
+  '''                        cvalue = int(literal)
                     value_is_int = True''', "fire", "")
+V("C11", "C11.R1", "c11-octal-dropped", "shroud/ast.py",
+  '''                    if len(literal) > 1 and literal[0] == "0":
+                        # C++ reads a leading 0 as an octal literal.
+                        cvalue = int(literal, 8)
+                    else:
+                        cvalue = int(literal)''',
+  '''                    cvalue = int(literal)''', "fire", "octal")
+V("C11", "C11.R5", "c11-unary-right-unparenthesised", "shroud/todict.py",
+  '''            right = "(" + right + ")"
+        return self.visit(node.left) + node.op + right''',
+  '''            right = " " + right
+        return self.visit(node.left) + node.op + right''', "fire", "unary-right")
 V("C11", "C11.R1", "c11-f-value-only-explicit", "shroud/ast.py",
   '''                fmt.C_value = cvalue # Only set if explicitly set by user.
             fmt.F_value = fvalue     # Always set.''',
